@@ -235,11 +235,15 @@ func (g *GoGen) Program(n int) string {
 	b.WriteString(goPrelude)
 	// a few package-level declarations with constant folding
 	b.WriteString("\nconst (\n\tK0 = iota * 3\n\tK1\n\tK2\n\tKBig = 1 << 40\n\tKMix = KBig>>38 + K2\n)\n\nconst KStr = \"k\" + \"s\"\n\nvar gCount = K1 + 1\n\n")
+	// a function that uses package-level names declared after it (and after main), next to locals of the same
+	// names: the later declarations are loaded on demand while this body is being compiled
+	lateV := g.R.Range(1, 9)
+	fmt.Fprintf(&b, "func tLate() {\n\tlateCount := \"local\"\n\tlateTag := %d\n\tfmt.Println(lateCount, lateTag, lateHelper(%d), lateJoin(\"x\"))\n}\n\n", lateV, lateV)
 	for i := 0; i < n; i++ {
 		b.WriteString(g.testFunc(i))
 		b.WriteString("\n")
 	}
-	b.WriteString("func main() {\n")
+	b.WriteString("func main() {\n\tsafe(\"tLate\", tLate)\n")
 	for i := 0; i < n; i++ {
 		fmt.Fprintf(&b, "\tsafe(\"t%d\", t%d)\n", i, i)
 	}
@@ -255,6 +259,7 @@ func (g *GoGen) Program(n int) string {
 		b.WriteString("\tvar m map[string]int\n\tm[\"x\"] = 1\n")
 	}
 	b.WriteString("}\n")
+	fmt.Fprintf(&b, "\nfunc lateHelper(n int) int { return lateCount + n*lateStep }\n\nfunc lateJoin(s string) string { return lateTag + s }\n\nvar lateCount, lateStep = %d, 2\n\nvar lateTag = \"tag\"\n", 40+lateV)
 	return b.String()
 }
 
@@ -612,9 +617,15 @@ func (g *GoGen) stmt(sc *gscope, d int) string {
 				fmt.Fprintf(&b, "%scase %d:", p, c)
 			}
 			g.ind++
-			b.WriteString(g.clause(sc, d-1))
-			if r.Chance(1, 3) {
+			switch r.Intn(8) {
+			case 0: // a clause that only falls through
 				b.WriteString(g.nl() + "fallthrough")
+			case 1: // an empty clause
+			default:
+				b.WriteString(g.clause(sc, d-1))
+				if r.Chance(1, 3) {
+					b.WriteString(g.nl() + "fallthrough")
+				}
 			}
 			g.ind--
 		}
